@@ -35,6 +35,10 @@ pub struct FdCase {
     /// close(2): Linux releases the descriptor even when close reports EINTR/EIO)
     #[serde(default)]
     pub after_exec: bool,
+    /// a second fault, at an index of the syscall sequence as it runs under the first fault
+    /// (only generated when the first fault is one the operation recovers from)
+    #[serde(default)]
+    pub fault2: Option<(u32, i32)>,
 }
 
 /// What an operation hands to its caller: the raw descriptors it claims to own, and a value
@@ -618,9 +622,9 @@ const CLOSED_STD: &str = "[caller's 0 and 1 closed]";
 
 /// Run one (scenario, fault) pair and judge it. Scenarios marked CLOSED_STD run with the harness's
 /// own descriptors 0 and 1 parked on high numbers and closed; they are put back afterwards.
-pub fn run_case(env: &Env, name: &str, op: Op, fault: Option<(u32, i32)>, after_exec: bool, child_fault: &Option<(String, u32, i32)>, rep: &mut CaseReport) -> Result<Vec<sc::verif::Call>, Failure> {
+pub fn run_case(env: &Env, name: &str, op: Op, fault: Option<(u32, i32)>, fault2: Option<(u32, i32)>, after_exec: bool, child_fault: &Option<(String, u32, i32)>, rep: &mut CaseReport) -> Result<Vec<sc::verif::Call>, Failure> {
     if !name.contains(CLOSED_STD) {
-        return run_case_inner(env, name, op, fault, after_exec, child_fault, rep);
+        return run_case_inner(env, name, op, fault, fault2, after_exec, child_fault, rep);
     }
     let mut saved: Vec<(i32, i32)> = Vec::new();
     for n in 0..2 {
@@ -630,7 +634,7 @@ pub fn run_case(env: &Env, name: &str, op: Op, fault: Option<(u32, i32)>, after_
             unsafe { libc::close(n) };
         }
     }
-    let r = run_case_inner(env, name, op, fault, after_exec, child_fault, rep);
+    let r = run_case_inner(env, name, op, fault, fault2, after_exec, child_fault, rep);
     let _ = sc::verif::log_end();
     sc::verif::clear_plan();
     for (n, hi) in saved {
@@ -643,13 +647,16 @@ pub fn run_case(env: &Env, name: &str, op: Op, fault: Option<(u32, i32)>, after_
     r
 }
 
-fn run_case_inner(env: &Env, name: &str, op: Op, fault: Option<(u32, i32)>, after_exec: bool, child_fault: &Option<(String, u32, i32)>, rep: &mut CaseReport) -> Result<Vec<sc::verif::Call>, Failure> {
+fn run_case_inner(env: &Env, name: &str, op: Op, fault: Option<(u32, i32)>, fault2: Option<(u32, i32)>, after_exec: bool, child_fault: &Option<(String, u32, i32)>, rep: &mut CaseReport) -> Result<Vec<sc::verif::Call>, Failure> {
     reset_files(env);
     let before = snapshot();
     let mut rules = Vec::new();
     if let Some((j, e)) = fault {
         let action = if after_exec { Action::ExecThenRet(sc::verif::neg_errno(e)) } else { Action::ForceRet(sc::verif::neg_errno(e)) };
         rules.push(Rule { nr: None, nth: Some(j as usize), action, times: 1 });
+    }
+    if let Some((k, e)) = fault2 {
+        rules.push(Rule { nr: None, nth: Some(k as usize), action: Action::ForceRet(sc::verif::neg_errno(e)), times: 1 });
     }
     if let Some((sys, nth, e)) = child_fault {
         let nr = match sys.as_str() {
@@ -693,7 +700,10 @@ fn run_case_inner(env: &Env, name: &str, op: Op, fault: Option<(u32, i32)>, afte
             unexpected.remove(0);
         }
     }
-    let step = fault.map(|(j, e)| format!("syscall #{j} ({}) failing with errno {e}", log.get(j as usize).map(|c| c.nr.to_string()).unwrap_or_default())).unwrap_or_else(|| "no fault".into());
+    let mut step = fault.map(|(j, e)| format!("syscall #{j} ({}) failing with errno {e}", log.get(j as usize).map(|c| c.nr.to_string()).unwrap_or_default())).unwrap_or_else(|| "no fault".into());
+    if let Some((k, e)) = fault2 {
+        step.push_str(&format!(", then syscall #{k} ({}) failing with errno {e}", log.get(k as usize).map(|c| c.nr.to_string()).unwrap_or_default()));
+    }
     ensure!(unexpected.is_empty(), format!("{name}|leaked a descriptor"), "{name} ({step}): still open after the call and not owned by the returned value: {}", describe(&after, &unexpected));
     let missing: Vec<i32> = owned.iter().copied().filter(|f| !after.contains_key(f)).collect();
     ensure!(missing.is_empty(), format!("{name}|returned a closed descriptor"), "{name} ({step}): the returned value claims descriptors {missing:?} which are not open");
@@ -747,7 +757,7 @@ pub fn check_case(env: &Env, c: &FdCase) -> CaseResult {
     let Some((name, op)) = scn.iter().find(|(n, _)| *n == c.scenario) else {
         return Err(Failure::new("harness|unknown scenario", c.scenario.clone()));
     };
-    let r = run_case(env, name, *op, c.fault, c.after_exec, &c.child_fault, &mut rep);
+    let r = run_case(env, name, *op, c.fault, c.fault2, c.after_exec, &c.child_fault, &mut rep);
     // never leave a plan or an open log behind (error paths return early)
     let _ = sc::verif::log_end();
     sc::verif::clear_plan();
@@ -758,6 +768,7 @@ pub fn check_case(env: &Env, c: &FdCase) -> CaseResult {
     rep.class_if(c.fault.is_some(), "parent-fault");
     rep.class_if(c.child_fault.is_some(), "child-fault");
     rep.class_if(c.after_exec, "close-reports-error-after-releasing");
+    rep.class_if(c.fault2.is_some(), "two-faults");
     Ok(rep)
 }
 
@@ -784,16 +795,17 @@ pub fn run(ctx: &Ctx) {
     let all_errnos = ctx.thorough();
     let mut complete = true;
     let mut total = 0u64;
+    let mut pairs = 0u64;
     for (i, (name, op)) in scn.iter().enumerate() {
         if i % ctx.nworkers as usize != ctx.worker as usize {
             continue;
         }
         // dry run: the syscall sequence of the fault-free operation
-        let base = FdCase { scenario: name.to_string(), fault: None, child_fault: None, after_exec: false };
+        let base = FdCase { scenario: name.to_string(), fault: None, child_fault: None, after_exec: false, fault2: None };
         let mut dry_log = Vec::new();
         let ok = ctx.run_one("fd-table", &base, || {
             let mut rep = CaseReport::new();
-            let r = run_case(&env, name, *op, None, false, &None, &mut rep);
+            let r = run_case(&env, name, *op, None, None, false, &None, &mut rep);
             let _ = sc::verif::log_end();
             sc::verif::clear_plan();
             dry_log = r?;
@@ -809,7 +821,7 @@ pub fn run(ctx: &Ctx) {
                 // close(2) releases the descriptor even when it reports an error: execute it,
                 // then answer EINTR / EIO. The operation must not close that number again.
                 for &e in &[libc::EINTR, libc::EIO][..if all_errnos { 2 } else { 1 }] {
-                    let case = FdCase { scenario: name.to_string(), fault: Some((j as u32, e)), child_fault: None, after_exec: true };
+                    let case = FdCase { scenario: name.to_string(), fault: Some((j as u32, e)), child_fault: None, after_exec: true, fault2: None };
                     let ok = ctx.run_one("fd-table", &case, || check_case(&env, &case));
                     total += 1;
                     if !ok {
@@ -823,11 +835,41 @@ pub fn run(ctx: &Ctx) {
             }
             let errs = quick_errnos(call.nr, all_errnos);
             for &e in errs.iter() {
-                let case = FdCase { scenario: name.to_string(), fault: Some((j as u32, e)), child_fault: None, after_exec: false };
-                let ok = ctx.run_one("fd-table", &case, || check_case(&env, &case));
+                let case = FdCase { scenario: name.to_string(), fault: Some((j as u32, e)), child_fault: None, after_exec: false, fault2: None };
+                let mut log1 = Vec::new();
+                let ok = ctx.run_one("fd-table", &case, || {
+                    let mut rep = CaseReport::new();
+                    let r = run_case(&env, name, *op, case.fault, None, false, &None, &mut rep);
+                    let _ = sc::verif::log_end();
+                    sc::verif::clear_plan();
+                    log1 = r?;
+                    reap();
+                    rep.nontrivial_if(j >= 1);
+                    rep.class("parent-fault");
+                    Ok(rep)
+                });
                 total += 1;
                 if !ok {
                     seen_sigs = true;
+                    continue;
+                }
+                // the operation went on after a fault it recovers from: fail each later call as well
+                if !branch_errnos(call.nr).contains(&e) || log1.len() <= j + 1 {
+                    continue;
+                }
+                for (k, call2) in log1.iter().enumerate().skip(j + 1) {
+                    if call2.nr == sc::nr::CLOSE || never_fault(call2.nr) {
+                        continue;
+                    }
+                    for &e2 in quick_errnos(call2.nr, false).iter() {
+                        let case2 = FdCase { scenario: name.to_string(), fault: Some((j as u32, e)), child_fault: None, after_exec: false, fault2: Some((k as u32, e2)) };
+                        let ok = ctx.run_one("fd-table", &case2, || check_case(&env, &case2));
+                        total += 1;
+                        pairs += 1;
+                        if !ok {
+                            seen_sigs = true;
+                        }
+                    }
                 }
             }
         }
@@ -835,7 +877,7 @@ pub fn run(ctx: &Ctx) {
             for (sys, n) in [("dup3", 3u32), ("execve", 1), ("chdir", 1)] {
                 for nth in 0..n {
                     for &e in &[libc::EMFILE, libc::EACCES][..if all_errnos { 2 } else { 1 }] {
-                        let case = FdCase { scenario: name.to_string(), fault: None, child_fault: Some((sys.to_string(), nth, e)), after_exec: false };
+                        let case = FdCase { scenario: name.to_string(), fault: None, child_fault: Some((sys.to_string(), nth, e)), after_exec: false, fault2: None };
                         let ok = ctx.run_one("fd-table", &case, || check_case(&env, &case));
                         total += 1;
                         if !ok {
@@ -850,7 +892,7 @@ pub fn run(ctx: &Ctx) {
         }
     }
     if complete {
-        ctx.note_exhaustive(format!("fd-table: every scenario of this worker's share ({} scenarios in total) x every index of its syscall sequence x {} plausible errno(s) per call plus every errno the code branches on (EAGAIN, EINPROGRESS, EINTR, EBUSY, EEXIST...); {} cases on this worker", scn.len(), if all_errnos { "all" } else { "the first two" }, total));
+        ctx.note_exhaustive(format!("fd-table: every scenario of this worker's share ({} scenarios in total) x every index of its syscall sequence x {} plausible errno(s) per call plus every errno the code branches on (EAGAIN, EINPROGRESS, EINTR, EBUSY, EEXIST...); and, after every fault the operation recovers from, every later call failing as well ({} two-fault cases); {} cases on this worker", scn.len(), if all_errnos { "all" } else { "the first two" }, pairs, total));
     }
     unsafe { libc::close(env.unix_listener_fd) };
     let _ = std::fs::remove_dir_all(&env.root);
